@@ -33,6 +33,7 @@ import (
 	"math"
 	"os"
 	"path/filepath"
+	"runtime"
 	"sort"
 	"strconv"
 	"strings"
@@ -167,7 +168,11 @@ func (g *c16Spin) Run(instanceID string, vs parser.Scope, is map[string]interfac
 	if _, ok := c16Cases.Load(root); !ok {
 		return false, nil
 	}
-	time.Sleep(200 * time.Microsecond)
+	if len(args) > 0 {
+		runtime.Gosched() // x.spin(0): as fast as it goes
+	} else {
+		time.Sleep(200 * time.Microsecond)
+	}
 	return true, nil
 }
 func (g *c16Spin) DocString() (string, error) { return "spin", nil }
@@ -749,9 +754,13 @@ func c16Conc() string {
 	}
 	// two more threads of the same provider loop over two mutex blocks while the case lasts: the
 	// provider's table of mutex owners (which `lockstate` reports) changes all the time
-	mtx := "for x.spin() {\n    mutex ma {\n        q := 1\n    }\n    mutex mb {\n        q := 2\n    }\n}\n"
+	mtx := "for x.spin(0) {\n    mutex ma {\n        q := 1\n    }\n    mutex mb {\n        q := 2\n    }\n}\n"
 	c.start(3, "mtx", mtx)
 	c.start(4, "mtx", mtx)
+	// and two threads that do nothing but visit states (VisitState looks the break point table up)
+	for t := uint64(5); t <= 6; t++ {
+		c.start(t, "busy", "for x.spin(0) {\n    q := 1\n}\n")
+	}
 	var bad atomic.Value
 	note := func(cl string) {
 		// an error reply is fine here (the thread may be running when extract / inject arrive)
@@ -1024,9 +1033,13 @@ func c16Gen(g *Gen) {
 	emit("nest2", true, "inject 1 p f1(1)", "status", "break prog:1", "describe 999", "cont 999 resume", "status")
 	emit("nest1", true, "breakonstart", "inject 1 p f3(1)", "status", "describe 999", "rmbreak nest", "cont 999 stepover", "status")
 	// commands from two goroutines at once
+	amplify := os.Getenv("C16_AMPLIFY") != "" // a fact about the lock discipline is not established
 	nconc := 3
 	if g.Thorough() {
 		nconc = 12
+	}
+	if amplify {
+		nconc *= 4
 	}
 	for i := 0; i < nconc; i++ {
 		g.Count("concurrent")
@@ -1094,6 +1107,9 @@ func c16Gen(g *Gen) {
 	n := 1500
 	if g.Thorough() {
 		n = 30000
+	}
+	if amplify {
+		n *= 4
 	}
 	likely := func() string {
 		switch g.R.Intn(12) {
@@ -1192,19 +1208,31 @@ func c16Tool(args []string) int {
 				continue
 			}
 			ty := strings.TrimPrefix(text(d.Recv.List[0].Type), "*")
-			cond := ""
+			// the argument-count test: a leading `if <condition over len(args)> { …; return … }`.
+			// The condition is EVALUATED for 0..5 arguments (not compared as text); "?" = not understood
+			table := "FFFFFF"
 			for _, st := range d.Body.List {
 				if is, ok := st.(*ast.IfStmt); ok && strings.Contains(text(is.Cond), "len(args)") {
-					// only a test that leaves the function counts as the argument-count check
 					if len(is.Body.List) > 0 {
 						if _, ok := is.Body.List[len(is.Body.List)-1].(*ast.ReturnStmt); ok {
-							cond = text(is.Cond)
+							table = ""
+							for n := 0; n <= 5; n++ {
+								v, ok := c16EvalBool(is.Cond, d.Type.Params, n)
+								switch {
+								case !ok:
+									table += "?"
+								case v:
+									table += "T"
+								default:
+									table += "F"
+								}
+							}
 						}
 					}
 					break
 				}
 			}
-			checks[ty] = cond
+			checks[ty] = table
 		}
 	}
 	keys := make([]string, 0, len(types))
@@ -1214,7 +1242,7 @@ func c16Tool(args []string) int {
 	sort.Strings(keys)
 	fmt.Println("/-! GENERATED by `harness C16 -tool vocabulary` from interpreter/debug_cmd.go — do not edit. -/")
 	fmt.Println("namespace Ecal.Gen.C16")
-	fmt.Println("/-- DebugCommandsMap: (key, Go type, argument-count test at the head of its Run), sorted by key -/")
+	fmt.Println("/-- DebugCommandsMap: (key, Go type, does the argument-count test at the head of its Run reject 0..5 arguments: T/F, ? = not understood), sorted by key -/")
 	fmt.Println("def commands : List (String × String × String) := [")
 	for i, k := range keys {
 		sep := ","
@@ -1224,29 +1252,95 @@ func c16Tool(args []string) int {
 		fmt.Printf("  (%s, %s, %s)%s\n", strconv.Quote(k), strconv.Quote(types[k]), strconv.Quote(checks[types[k]]), sep)
 	}
 	fmt.Println("]")
-	// defer statements in ecalDebugger.VisitState (its unlocks must not be deferred: the thread waits inside)
-	defers := -1
-	if dfile, err := goparser.ParseFile(fset, filepath.Join(repoDir(), "interpreter", "debug.go"), nil, 0); err == nil {
-		for _, d := range dfile.Decls {
-			if fd, ok := d.(*ast.FuncDecl); ok && fd.Name.Name == "VisitState" && fd.Recv != nil && fd.Body != nil {
-				defers = 0
-				ast.Inspect(fd.Body, func(n ast.Node) bool {
-					if _, ok := n.(*ast.DeferStmt); ok {
-						defers++
+	facts, err := c16LockFacts()
+	if err != nil {
+		fmt.Fprintln(os.Stderr, err)
+		return 2
+	}
+	fmt.Print(facts)
+	fmt.Println("end Ecal.Gen.C16")
+	return 0
+}
+
+// c16EvalBool evaluates a condition over len(<the []string parameter>) and integer literals
+func c16EvalBool(e ast.Expr, params *ast.FieldList, n int) (bool, bool) {
+	switch e := e.(type) {
+	case *ast.ParenExpr:
+		return c16EvalBool(e.X, params, n)
+	case *ast.UnaryExpr:
+		if e.Op == token.NOT {
+			v, ok := c16EvalBool(e.X, params, n)
+			return !v, ok
+		}
+	case *ast.BinaryExpr:
+		switch e.Op {
+		case token.LAND, token.LOR:
+			a, ok1 := c16EvalBool(e.X, params, n)
+			b, ok2 := c16EvalBool(e.Y, params, n)
+			if e.Op == token.LAND {
+				return a && b, ok1 && ok2
+			}
+			return a || b, ok1 && ok2
+		}
+		a, ok1 := c16EvalInt(e.X, params, n)
+		b, ok2 := c16EvalInt(e.Y, params, n)
+		if !ok1 || !ok2 {
+			return false, false
+		}
+		switch e.Op {
+		case token.EQL:
+			return a == b, true
+		case token.NEQ:
+			return a != b, true
+		case token.LSS:
+			return a < b, true
+		case token.GTR:
+			return a > b, true
+		case token.LEQ:
+			return a <= b, true
+		case token.GEQ:
+			return a >= b, true
+		}
+	}
+	return false, false
+}
+
+func c16EvalInt(e ast.Expr, params *ast.FieldList, n int) (int, bool) {
+	switch e := e.(type) {
+	case *ast.ParenExpr:
+		return c16EvalInt(e.X, params, n)
+	case *ast.BasicLit:
+		if e.Kind == token.INT {
+			v, err := strconv.Atoi(e.Value)
+			return v, err == nil
+		}
+	case *ast.CallExpr:
+		if id, ok := e.Fun.(*ast.Ident); ok && id.Name == "len" && len(e.Args) == 1 {
+			if arg, ok := e.Args[0].(*ast.Ident); ok && params != nil {
+				for _, f := range params.List {
+					if at, ok := f.Type.(*ast.ArrayType); ok && at.Len == nil {
+						for _, nm := range f.Names {
+							if nm.Name == arg.Name {
+								return n, true
+							}
+						}
 					}
-					return true
-				})
+				}
+			}
+		}
+	case *ast.BinaryExpr:
+		a, ok1 := c16EvalInt(e.X, params, n)
+		b, ok2 := c16EvalInt(e.Y, params, n)
+		if ok1 && ok2 {
+			switch e.Op {
+			case token.ADD:
+				return a + b, true
+			case token.SUB:
+				return a - b, true
 			}
 		}
 	}
-	if defers < 0 {
-		fmt.Fprintln(os.Stderr, "VisitState not found in interpreter/debug.go")
-		return 2
-	}
-	fmt.Println("/-- number of `defer` statements in ecalDebugger.VisitState (interpreter/debug.go) -/")
-	fmt.Printf("def visitStateDefers : Nat := %d\n", defers)
-	fmt.Println("end Ecal.Gen.C16")
-	return 0
+	return 0, false
 }
 
 func init() {
